@@ -920,7 +920,29 @@ func EventPathsB(fn *ssa.Function, ev func(ssa.Instruction) string, br func(ssa.
 // address-taken locals: when p is non-nil, loads of a local alloc are rendered as
 // the value last stored on the current path.
 func EventPathsS(fn *ssa.Function, p *Pather, ev func(ssa.Instruction) string, br func(ssa.Value) string, loopVisits, cap int) (paths [][]string, ok bool) {
+	return eventPaths(fn, p, ev, br, loopVisits, cap, false)
+}
+
+// StopEvent, returned by an event function, ends the path at that instruction (the
+// rule is only interested in what happens up to a probe point).
+const StopEvent = "<stop>"
+
+// EventPathsR is EventPathsS with merges resolved per path: while a path is walked,
+// every phi is bound (Pather.Bind) to the alternative of the edge the path came in
+// by, so the event and branch functions see `lb` as `0` or as `*p2` on that path
+// instead of as phi(0|*p2).
+func EventPathsR(fn *ssa.Function, p *Pather, ev func(ssa.Instruction) string, br func(ssa.Value) string, loopVisits, cap int) (paths [][]string, ok bool) {
+	return eventPaths(fn, p, ev, br, loopVisits, cap, true)
+}
+
+func eventPaths(fn *ssa.Function, p *Pather, ev func(ssa.Instruction) string, br func(ssa.Value) string, loopVisits, cap int, resolve bool) (paths [][]string, ok bool) {
 	env := map[*ssa.Alloc]string{}
+	if resolve && p != nil {
+		p.Bind = map[ssa.Value]ssa.Value{}
+		defer func() { p.Bind = nil }()
+	}
+	var from *ssa.BasicBlock
+	decided := map[string]int{}
 	if p != nil {
 		p.Loads = map[*ssa.UnOp]string{}
 		defer func() { p.Loads = nil; p.ResetMemo() }()
@@ -940,6 +962,47 @@ func EventPathsS(fn *ssa.Function, p *Pather, ev func(ssa.Instruction) string, b
 		visits[b]++
 		n0 := len(cur)
 		exit := false
+		// bind the phis of this block to the edge taken
+		var boundPhis []*ssa.Phi
+		var prevBind []ssa.Value
+		if resolve && p != nil && from != nil {
+			idx := -1
+			for i, pr := range b.Preds {
+				if pr == from {
+					idx = i
+				}
+			}
+			if idx >= 0 {
+				// all phis read their operands simultaneously: evaluate against the old binding
+				var vals []ssa.Value
+				for _, in := range b.Instrs {
+					ph, isPhi := in.(*ssa.Phi)
+					if !isPhi {
+						break
+					}
+					boundPhis = append(boundPhis, ph)
+					prevBind = append(prevBind, p.Bind[ph])
+					vals = append(vals, p.Deref(ph.Edges[idx]))
+				}
+				for i, ph := range boundPhis {
+					if vals[i] == ssa.Value(ph) {
+						delete(p.Bind, ph)
+					} else {
+						p.Bind[ph] = vals[i]
+					}
+				}
+				p.ResetMemo()
+			}
+		}
+		defer func() {
+			for i, ph := range boundPhis {
+				if prevBind[i] == nil {
+					delete(p.Bind, ph)
+				} else {
+					p.Bind[ph] = prevBind[i]
+				}
+			}
+		}()
 		var savedEnv map[*ssa.Alloc]string
 		var savedLoads []*ssa.UnOp
 		if p != nil {
@@ -979,7 +1042,10 @@ func EventPathsS(fn *ssa.Function, p *Pather, ev func(ssa.Instruction) string, b
 					}
 				}
 			}
-			if e := ev(in); e != "" {
+			if e := ev(in); e == StopEvent {
+				exit = true
+				break
+			} else if e != "" {
 				cur = append(cur, e)
 			}
 			switch in.(type) {
@@ -1007,7 +1073,61 @@ func EventPathsS(fn *ssa.Function, p *Pather, ev func(ssa.Instruction) string, b
 					brName = br(iff.Cond)
 				}
 			}
+			// a condition that folds to a constant under the current binding has one feasible side
+			feasible := -1
+			if resolve && p != nil && len(b.Succs) == 2 {
+				if iff, isIf := b.Instrs[len(b.Instrs)-1].(*ssa.If); isIf {
+					if bo, isBin := p.Deref(iff.Cond).(*ssa.BinOp); isBin {
+						x, okX := p.Const(bo.X)
+						y, okY := p.Const(bo.Y)
+						if okX && okY {
+							var t bool
+							known := true
+							switch bo.Op {
+							case token.EQL:
+								t = x == y
+							case token.NEQ:
+								t = x != y
+							case token.LSS:
+								t = x < y
+							case token.LEQ:
+								t = x <= y
+							case token.GTR:
+								t = x > y
+							case token.GEQ:
+								t = x >= y
+							default:
+								known = false
+							}
+							if known {
+								feasible = 1
+								if t {
+									feasible = 0
+								}
+							}
+						}
+					}
+				}
+			}
+			// a condition over parameters and constants only that was already decided on this
+			// path keeps its outcome
+			stable := resolve && brName != "" && !strings.Contains(brName, "call:") && !strings.Contains(brName, "local:") && !strings.Contains(brName, "iv")
 			for si, s := range b.Succs {
+				if feasible >= 0 && si != feasible {
+					continue
+				}
+				setHere := false
+				if stable {
+					if prev, seenBefore := decided[brName]; seenBefore {
+						if prev != si {
+							continue
+						}
+					} else {
+						decided[brName] = si
+						setHere = true
+					}
+				}
+				from = b
 				n1 := len(cur)
 				if brName != "" {
 					if si == 0 {
@@ -1018,6 +1138,9 @@ func EventPathsS(fn *ssa.Function, p *Pather, ev func(ssa.Instruction) string, b
 				}
 				if !walk(s) {
 					return false
+				}
+				if setHere {
+					delete(decided, brName)
 				}
 				cur = cur[:n1]
 			}
